@@ -111,6 +111,8 @@ class EvalMixin:
             return tuple(self.import_value(x) for x in v)
         cache = self.p.__dict__.setdefault("import_cache", {})
         k = id(v)
+        # keep the real object alive for the whole path: ids of dead objects are recycled
+        self.p.__dict__.setdefault("import_keepalive", []).append(v)
         if k in cache:
             return cache[k]
         if isinstance(v, list):
@@ -271,9 +273,15 @@ class EvalMixin:
         fr.env[n.target.id] = v
         return v
 
+    def mangle(self, name, fr):
+        """class-private name mangling of `__x` inside a class body"""
+        if name.startswith("__") and not name.endswith("__") and isinstance(fr.cls, type):
+            return "_%s%s" % (fr.cls.__name__.lstrip("_"), name)
+        return name
+
     def e_Attribute(self, n, fr):
         v = self.eval(n.value, fr)
-        return self.getattr(v, n.attr, fr)
+        return self.getattr(v, self.mangle(n.attr, fr), fr)
 
     def e_Subscript(self, n, fr):
         v = self.eval(n.value, fr)
@@ -684,8 +692,9 @@ class EvalMixin:
             fr.env[t.id] = self.binop(n.op, cur, val)
         elif isinstance(t, ast.Attribute):
             obj = self.eval(t.value, fr)
-            cur = self.getattr(obj, t.attr)
-            self.setattr(obj, t.attr, self.binop(n.op, cur, self.eval(n.value, fr)))
+            an = self.mangle(t.attr, fr)
+            cur = self.getattr(obj, an)
+            self.setattr(obj, an, self.binop(n.op, cur, self.eval(n.value, fr)))
         elif isinstance(t, ast.Subscript):
             obj = self.eval(t.value, fr)
             k = self.eval(t.slice, fr)
@@ -716,10 +725,23 @@ class EvalMixin:
             for e, x in zip(t.elts, vals):
                 self.assign(e, x, fr)
         elif isinstance(t, ast.Attribute):
-            self.setattr(self.eval(t.value, fr), t.attr, v)
+            self.setattr(self.eval(t.value, fr), self.mangle(t.attr, fr), v)
         elif isinstance(t, ast.Subscript):
             obj = self.eval(t.value, fr)
             if isinstance(t.slice, ast.Slice):
+                o = self.p.deref(obj) if isinstance(obj, Ref) else None
+                lo = self.eval(t.slice.lower, fr) if t.slice.lower else None
+                hi = self.eval(t.slice.upper, fr) if t.slice.upper else None
+                if isinstance(o, HList) and t.slice.step is None and all(x is None or isinstance(x, int) for x in (lo, hi)):
+                    new = self.iterate(v)
+                    if o.pre is None:
+                        o.items[lo:hi] = new
+                        return
+                    n = len(o.items)
+                    # with a symbolic prefix only slices that lie inside the explicit suffix are supported
+                    if lo is not None and lo < 0 and -lo <= n and (hi is None or (hi < 0 and -hi <= n)):
+                        o.items[lo:hi] = new
+                        return
                 raise Undecided("slice assignment")
             self.setitem(obj, self.eval(t.slice, fr), v)
         else:
